@@ -245,6 +245,25 @@ pub fn syntax(cex: &Value) -> Result<String, String> {
         }
       }
     }
+    // did:jwk: a text with DID-URL parts is not a DID - refused, or reproduced verbatim; never accepted with the parts dropped
+    {
+      use identity_did::DIDJwk;
+      let id = identity_jose::jwu::encode_b64(br#"{"kty":"OKP","crv":"Ed25519","x":"11qYAYKxCrfVS_7TyWQHOg7hcvPapiMlrwIaaPcHURo"}"#);
+      let plain = format!("did:jwk:{id}");
+      if DIDJwk::parse(&plain).map(|d| d.to_string()).ok().as_deref() != Some(plain.as_str()) {
+        log.push(format!("[jwk] {plain:?} is not accepted and reproduced"));
+      }
+      for tail in ["#0", "/path", "?q=1", "#", "/", "?", "/p?q#f", " "] {
+        let text = format!("{plain}{tail}");
+        for (how, got) in [("parse", DIDJwk::parse(&text).ok()), ("from_str", text.parse::<DIDJwk>().ok()), ("try_from(&str)", DIDJwk::try_from(text.as_str()).ok())] {
+          if let Some(d) = got {
+            if d.to_string() != text {
+              log.push(format!("[jwk] DIDJwk::{how}({text:?}) accepted as {:?}", d.to_string()));
+            }
+          }
+        }
+      }
+    }
     // the serde route accepts exactly what parse accepts and yields the same value (texts without '%': the parser's escape
     // handling is a recorded deviation)
     for text in [
